@@ -21,6 +21,18 @@ structure St where
   xtr : Nat := 0
   deriving Inhabited
 
+/-- the visible range a dimension is split against: none for the plain transformation; for logarithmic limits
+    (`xtr = 3`) the range gives decades: `[10^⌊min⌋, 10^⌈max⌉]` -/
+def effRange (s : St) (d : Nat) : Option Range :=
+  if s.xtr = 2 then none
+  else match s.xrange.getD d none with
+    | none => none
+    | some r =>
+      if s.xtr = 3 then
+        let p10 (e : Int) : Rat := if 0 ≤ e then ((10 ^ e.toNat : Nat) : Rat) else 1 / ((10 ^ (-e).toNat : Nat) : Rat)
+        some ⟨p10 r.min.floor, p10 (-((-r.max).floor))⟩
+      else some r
+
 def fmtPart (p : Part) : String := s!"{p.raw}:{p.usr}:{p.cut}:{p.trim}"
 
 def fmtParts (ps : List Part) : String :=
@@ -111,7 +123,7 @@ def reportedAll (dims : List (Option Range × Array Rat)) : List Part → List (
   | _, _, _ => false
 
 def validMulti (s : St) (ps : List Part) : Bool :=
-  let dims := s.xdims.map fun d => ((if s.xtr = 2 then none else s.xrange.getD d none), (s.xdata.getD d []).toArray)
+  let dims := s.xdims.map fun d => ((effRange s d), (s.xdata.getD d []).toArray)
   decide (sumRaw ps = s.xlen)
   && (List.range s.xlen).all (fun i => if visAll dims i then drawnCount ps 0 i == 1 else true)
   && interiorAll dims ps 0 && flaggedAll dims ps 0
@@ -159,13 +171,14 @@ def xstep (s : St) (w : List String) : St × String :=
     if kind = "double" then ({ s with xtr := 0 }, "R ok | C - | I -")
     else if kind = "t3" then ({ s with xtr := 1 }, "R ok | C - | I -")
     else if kind = "plain" then ({ s with xtr := 2 }, "R ok | C - | I -")
+    else if kind = "t3lg" then ({ s with xtr := 3 }, "R ok | C - | I -")
     else (s, "bad-op")
   | ["xl", "walk", d] =>
     match Dyadic.parseNat d with
     | some k =>
       if k ≥ 3 then (s, "bad-op") else
       let vals := s.xdata.getD k []
-      let rg := if s.xtr = 2 then none else s.xrange.getD k none
+      let rg := effRange s k
       let ps := parts vals rg
       let stall := ps.any fun p => p.raw == 0
       let r := s!"recs={fmtParts ps} n={ps.length}" ++ (if stall then " stall" else "")
@@ -179,7 +192,7 @@ def xstep (s : St) (w : List String) : St × String :=
     | some k =>
       if k ≥ 3 then (s, "bad-op") else
       let vals := s.xdata.getD k []
-      match arrayApply s.xarr vals (if s.xtr = 2 then none else s.xrange.getD k none) with
+      match arrayApply s.xarr vals (effRange s k) with
       | none => (s, xdump s "refused")
       | some ps =>
         let xlen := if s.xarr.isEmpty then vals.length else s.xlen
@@ -194,7 +207,7 @@ def xstep (s : St) (w : List String) : St × String :=
       if k < 1 ∨ k > 3 ∨ len = 0 ∨ (List.range k).any (fun d => (s.xdata.getD d []).length ≠ len) then (s, "bad-op")
       else
         let ps := (List.range k).foldl (fun acc d =>
-          match arrayApply acc (s.xdata.getD d []) (if s.xtr = 2 then none else s.xrange.getD d none) with
+          match arrayApply acc (s.xdata.getD d []) (effRange s d) with
           | some q => q
           | none => acc) (arraySet len)
         let s1 := { s with xarr := ps, xdims := List.range k, xlen := len }
@@ -203,7 +216,10 @@ def xstep (s : St) (w : List String) : St × String :=
         -- not visited
         let total := lengthUser ps
         let walked := ((List.range (ps.length + 1)).find? fun k => lengthUser (ps.take k) = total).getD ps.length
-        (s, out.replace s!"I len={len}" s!"I len={len} walked={walked}")
+        -- the point storage holds exactly the drawn points of THIS data (none when nothing is visible)
+        let out1 := out.replace " | C raw=" s!" pts={total} | C raw="
+        let out2 := out1.replace " ; raw=" s!" pts={total} ; raw="
+        (s, out2.replace s!"I len={len}" s!"I len={len} walked={walked}")
     | none => (s, "bad-op")
   | ["xl", "reset"] =>
     let s1 := { s with xarr := arraySet (lengthRaw s.xarr), xdims := [] }
@@ -239,7 +255,7 @@ def xstep (s : St) (w : List String) : St × String :=
     match s.xarr2, Dyadic.parseNat d with
     | some old, some k =>
       if k ≥ 3 ∨ old.isEmpty then (s, "bad-op") else
-      match arrayApply old (s.xdata.getD k []) (if s.xtr = 2 then none else s.xrange.getD k none) with
+      match arrayApply old (s.xdata.getD k []) (effRange s k) with
       | none => (s, dump2 old "refused")
       | some ps => ({ s with xarr2 := some ps }, dump2 ps "ok")
     | _, _ => (s, "bad-op")
@@ -250,7 +266,7 @@ def xstep (s : St) (w : List String) : St × String :=
     -- spec: the points of a part lie inside its drawn points, and every point handed out is visible in every
     -- applied dimension (the drawn points without an out-of-range first / last point)
     let sane := ps.all fun (a, b, c, d) => 0 ≤ b ∧ a + b.toNat ≤ lengthUser s.xarr ∧ c + d ≤ lengthUser s.xarr
-    let dims := s.xdims.map fun d => ((if s.xtr = 2 then none else s.xrange.getD d none), (s.xdata.getD d []).toArray)
+    let dims := s.xdims.map fun d => ((effRange s d), (s.xdata.getD d []).toArray)
     let judged := s.xlen * (s.xarr.length + 1) ≤ 2000000
     let visible := !judged || reportedAll dims s.xarr ps 0
     (s, s!"R spans={txt} | C - | I - | S " ++ (if sane && visible then s!"spans={txt} ; *" else "!invalid ; *"))
